@@ -143,10 +143,34 @@ func copyCellChecks(w *World, r *Report, rule string) {
 	for _, fn := range w.RepoFuncs("schema") {
 		for _, fw := range fieldWrites(fn) {
 			if sameField(fw.field, fItem) || sameField(fw.field, fNext) {
-				ok := origin(fn) == origin(onceLit) || freshBase(fw.base, 0)
+				inOnce := origin(fn) == origin(onceLit) || (fn.Parent() != nil && origin(fn.Parent()) == origin(onceLit))
+				ok := inOnce || freshBase(fw.base, 0)
 				r.Check(ok, rule, fmt.Sprintf("cpStreamElement.%s written in %s", fw.field.Name(), w.fname(origin(fn))), fw.in.Pos(), "inside the once.Do literal (or while constructing a cell)", "a shared copy-list cell is written outside its sync.Once: concurrent children race / see different items")
 			}
 		}
+	}
+	// a panic of the source read inside once.Do leaves the Once done and the cell empty: every other copy would then
+	// read a zero item that was never sent and a nil `next` (taken for "closed"). The filler must recover and record
+	// the panic in the cell, and still link the next cell.
+	{
+		_, rec, rv := recoverDefer(onceLit)
+		okRec := false
+		det := "the once.Do literal has no deferred recover"
+		if rec != nil && rv != nil {
+			wItem, wNext := false, false
+			for _, fw := range fieldWrites(rec) {
+				if sameField(fw.field, fItem) {
+					wItem = true
+				}
+				if sameField(fw.field, fNext) {
+					wNext = true
+				}
+			}
+			okRec = wItem && wNext
+			det = fmt.Sprintf("the recover handler records the item=%v and links the next cell=%v", wItem, wNext)
+		}
+		r.Check(okRec, rule, "peek: a panic of the source read is recorded in the cell", onceLit.Pos(), "deferred recover inside once.Do writes cell.item (error) and cell.next",
+			"a panic of p.sr.Recv() inside once.Do (a converting reader whose convert function panics) poisons the shared cell: "+det+" — the other copies read a phantom zero item with nil error, then ErrRecvAfterClosed for ever (no EOF), and the source is never closed")
 	}
 	// sibling agreement: the filler (once literal) and the reader (peek) advance the cursor under the same `err != io.EOF` test
 	advGuard := func(fn *ssa.Function) (string, token.Pos) {
@@ -524,6 +548,10 @@ func runC08(w *World, r *Report) {
 		r.Check(srcErrReturned, "C08.convert-skip", "convert reader returns source errors unchanged", rv.Pos(), "return t, err of the source", "errors/EOF of the source are not passed through")
 	}
 
+	// ---- array-backed readers share their backing array with every copy: nobody appends to it in place
+	r.Rule("C08.array-alias", "no append on a slice derived from arrayReader.arr (the copies of an array-backed stream share that array): appends start from a fresh slice", 1)
+	arrayAliasCheck(w, r, "C08.array-alias")
+
 	// ---- merge-end
 	r.Rule("C08.merge-end", "merged reader: EOF only when no source is left; a source is dropped only when closed; Close closes all; static/reflect select boundary consistent; array-backed copies inherit the position", 5)
 	{
@@ -813,4 +841,28 @@ func arrayCopyCheck(w *World, r *Report, rule string) {
 	if n == 0 {
 		r.Fail(rule, "arrayReader.copy copies every field of the parent", cp.Pos(), "no arrayReader literal in copy")
 	}
+}
+
+// arrayAliasCheck: APPEND-ALIAS with schema.arrayReader as the owner, over package schema.
+func arrayAliasCheck(w *World, r *Report, rule string) {
+	owners := map[*types.Named]bool{w.Named("schema", "arrayReader"): true}
+	n := 0
+	for _, fn := range w.RepoFuncs("schema") {
+		for _, as := range appendSites(fn) {
+			n++
+			if as.root.kind != "field" || as.root.owner == nil || !owners[as.root.owner] {
+				continue
+			}
+			construct := fmt.Sprintf("%s append(%s.%s…)", w.fname(origin(fn)), as.root.owner.Obj().Name(), as.root.field.Name())
+			if freshBase(as.root.base, 0) {
+				r.OK(rule, construct, as.call.Pos(), "the array reader is under construction here")
+				continue
+			}
+			r.Fail(rule, construct, as.call.Pos(), "append on a slice that aliases an array-backed reader's array (first operand derives from arrayReader.arr): with spare capacity it writes behind the reader's items into the array that all Copy siblings share — another copy merged with a different stream then delivers this merge's items")
+		}
+	}
+	// positive control + evidence: MergeStreamReaders' accumulation starts from a fresh slice
+	msr := w.Fn("schema", "MergeStreamReaders")
+	na := len(appendSites(msr))
+	r.Check(na >= 2, rule, "MergeStreamReaders append sites inspected", msr.Pos(), fmt.Sprintf("%d append sites in MergeStreamReaders, %d in package schema; none starts from an array reader's array", na, n), "the append sites of MergeStreamReaders are no longer seen by the rule")
 }
